@@ -49,8 +49,67 @@ def build(v, suite, ops, rnd, tier, h, d):
                     raise bf.Infra("independent reader and SQLite disagree on the rowids of %s.%s" % (s["name"], tname))
 
 
+def rowid_only(v, suite, ops, rnd, tier, h, d):
+    """column lists that need nothing from the stored record (rowid, its aliases, the INTEGER PRIMARY KEY column, or no
+    column at all): the lookup must still find out whether the row exists"""
+    import os, json
+    from vlib import common, values
+    batches, expect = [], {}
+    nid = 0
+    for s in suite:
+        tdb = s["tdb"]
+        bops = []
+        for tname, t in s["desc"]["tables"].items():
+            if t["without_rowid"]:
+                continue
+            alias = bf.rowid_alias(t)
+            if not alias:
+                continue
+            root = tdb.root(tname)
+            present = [tdb.entries[i - 1]["rowid"] for i in tdb.order[root]]
+            pres = set(present)
+            ipk = [c["name"] for c in t["columns"] if c["pk"]] if (any(c["pk"] for c in t["columns"]) and not any(i["origin"] == "pk" for i in t["indexes"].values())) else []
+            cand = set(rnd.sample(present, min(len(present), 6 if tier == "quick" else 60)))
+            for r_ in list(cand):
+                cand.update(x for x in (r_ - 1, r_ + 1) if I64MIN <= x <= I64MAX)
+            cand.update([0, -1, I64MAX, I64MIN])
+            lists = [[alias], [alias, alias], []] + ([[ipk[0]], [ipk[0], alias]] if len(ipk) == 1 else [])
+            for rid in sorted(cand):
+                for cols in lists:
+                    bops.append({"op": "select_rowid", "id": nid, "table": tname, "rowid": str(rid), "cols": cols})
+                    expect[nid] = (s["name"], tname, rid, cols, rid in pres)
+                    nid += 1
+                    if len(ipk) == 1 and cols:
+                        bops.append({"op": "pk_select", "id": nid, "table": tname, "key": [values.to_jval(("i", rid))], "cols": cols})
+                        expect[nid] = (s["name"], tname, rid, cols, rid in pres)
+                        nid += 1
+        if bops:
+            batches.append({"db": s["path"], "mode": "keep", "ops": bops})
+    if not batches:
+        return
+    req, out = os.path.join(d, "ro-req.ndjson"), os.path.join(d, "ro-res.ndjson")
+    common.write_ndjson(req, batches)
+    rc, txt, _ = common.run([h, "ops", req, out], timeout=1800)
+    if rc != 0:
+        raise common.harness_failure(txt)
+    pairs = []
+    for r_ in common.read_ndjson(out):
+        name, tname, rid, cols, there = expect[r_["id"]]
+        got = [tuple(values.from_jval(j) for j in row) for row in r_.get("rows") or []]
+        if r_.get("op") == "select_rowid" and not cols:
+            got = [()] if r_.get("found") else []
+        want = [tuple(("i", rid) for _ in cols)] if there else []
+        if r_.get("err") or r_.get("panic"):
+            got = [(("t", b"error: " + str(r_.get("err") or r_.get("panic")).encode()),)]
+        pairs.append(({"cls": "rowid-only/%s/%s/%s" % (name, tname, "present" if there else "absent"), "what": "%s(%s, %d, %s)" % (r_.get("op"), tname, rid, cols),
+                       "sql": "the row with that rowid, if it exists"}, got, want))
+        v.nontrivial((name, tname, rid, tuple(cols), r_.get("op")))
+    bf.rows_events(v, "C04", pairs, "c04-rowid-only")
+    v.cov["rowid_only_lookups"] = len(pairs)
+
+
 def run(tier):
-    return bf.run_family("C04", tier, "rowid", build, {"complete"},
+    return bf.run_family("C04", tier, "rowid", build, {"complete"}, extra=rowid_only, rule=
                          "per rowid table of every generated database: Table.Rowid, SelectRowid and PKSelect (INTEGER PRIMARY KEY tables) "
                          "for every present rowid (sampled above the size limit, always incl. first/last rowid of every leaf and every "
                          "interior separator), both neighbours, rowids deleted by the generator, 0, +-1, int64 min/max; judged by TLC: "
